@@ -184,10 +184,10 @@ func (t *Tree) Request(fdp *descriptorpb.FileDescriptorProto, parameter, preferD
 	return proto.MarshalOptions{Deterministic: true}.Marshal(req)
 }
 
-var rePkgName = regexp.MustCompile(`\b[ps]\d+\b`)
+var rePkgName = regexp.MustCompile(`\b[ps]\d+(\b|_)`)
 
 // normNames replaces the row specific package names (p<row>, s<k>) by "pN".
-func normNames(s string) string { return rePkgName.ReplaceAllString(s, "pN") }
+func normNames(s string) string { return rePkgName.ReplaceAllString(s, "pN$1") }
 
 // classifyDiag maps a diagnostic to a short class.
 func classifyDiag(outcome, diag string) string {
